@@ -123,7 +123,9 @@ impl ClientConnection {
                     if line.is_empty() {
                         break;
                     };
-                    headers.push(match FromStr::from_str(line.as_str().trim()) {
+                    // only trailing whitespace may be dropped: a line that starts with
+                    // whitespace is obsolete line folding and must be rejected
+                    headers.push(match FromStr::from_str(line.as_str().trim_end()) {
                         // TODO: remove this conversion
                         Ok(h) => h,
                         _ => return Err(ReadError::WrongHeader(version)),
